@@ -3,7 +3,7 @@ from translators import tr_c10
 
 PID = "C10"
 CLAIM = True
-MANIFEST_TEXT = ("62 Lean 4 theorems (lean/DuneVerif/Props/C10.lean), for every digit count n (unbounded) and all well-formed "
+MANIFEST_TEXT = ("64 Lean 4 theorems (lean/DuneVerif/Props/C10.lean), for every digit count n (unbounded) and all well-formed "
                  "operands, about the digit-loop model of bigunsignedint that the driver runs against the real class: "
                  "add/incr/sub/mul are exact modulo W=2^(16n) (carry, borrow, double-width temporary and truncation included), "
                  "div/mod by a non-zero divisor return the exact quotient/remainder with the subtraction loop leaving through "
@@ -32,11 +32,16 @@ MANIFEST_TEXT = ("62 Lean 4 theorems (lean/DuneVerif/Props/C10.lean), for every 
                  "statements with a built-in operand of any integral type up to 64 bits (d = d OP y, d = y OP d through the table; "
                  "d OP= y through the implicit constructor), the six comparisons between variables/with themselves/with a "
                  "built-in, and touint(), with observations value | MathError | negative operand rejected | boolean | number; "
-                 "negative_builtin_rejected: a negative built-in is rejected in all of them and nothing is modified.")
+                 "negative_builtin_rejected: a negative built-in is rejected in all of them and nothing is modified. alias_refines: the "
+                 "compound operators modelled IN PLACE on an indexed store (explicit reads/writes per round; the right operand may "
+                 "be the destination's own store, read at access time) equal the value-level operators for every operator, width "
+                 "and operand, so a op= a is val a op val a mod W; hist_mem_refines: histories run that way (what the driver "
+                 "executes) refine the specification machine. divLoop_fuel_irrelevant now holds for any fuel above the quotient.")
 MANIFEST_NOTE = ("Trusted: Lean kernel (+propext/Classical.choice/Quot.sound), tr_c10.py, the hand-written model's fidelity "
                  "(lean/DuneVerif/Model/C10.lean mirrors each operator loop, Model/C10Prog.lean the statement semantics; checked "
-                 "by differential execution only), GMP, g++/ASan/UBSan. Aliasing (a op= a) is modelled at value level (the "
-                 "argument is read as a value); that the real loops tolerate aliasing is established by the run only. todouble is "
+                 "by differential execution only), GMP, g++/ASan/UBSan. Aliasing (a op= a) is modelled at memory level "
+                 "(Model/C10Mem.lean, alias_refines) for += -= &= |= ^=; for *= (write-back after the loops) and /= %= (copy of the "
+                 "divisor) the aliasing structure is a modelling statement checked by the run. todouble is "
                  "proved for the exact number mantissa*2^exponent the loop computes (mantissa<2^53 is a theorem, so the double "
                  "operations are exact below 2^1024; for k>1024 ldexp overflows to inf, not instantiated); the double arithmetic "
                  "itself, the hash function's value, MPITraits, and O(quotient) division with quotients >400 (single operators) / "
@@ -69,7 +74,7 @@ ASSUMPTIONS = [
     "MPITraits<bigunsignedint<k>>::getType is translated, not executed; MPI itself is trusted to transport a committed datatype",
     "todouble: IEEE double operations are exact on the modelled values (theorem todouble_mantissa_exact: mantissa < 2^53; ldexp exact below 2^1024)",
     "division/remainder are exercised with quotients <= 400 (single operators) / <= 2000 (histories) only (the real algorithm is O(quotient))",
-    "self-aliased compound operators (a op= a) are modelled as the operation on two equal values; a case that does not return within 30 s is killed and reported",
+    "self-aliased compound operators (a op= a) are modelled on an indexed store whose right operand aliases the destination (alias_refines); that the real loops read index i before writing it is the hand-written model's claim, checked by the run; a case that does not return within 10 s is killed and reported",
 ]
 TRUSTED = ["g++/libstdc++, ASan/UBSan, GMP as oracle", "translator tr_c10.py", "harness/cxx_c10.cc + Driver/C10.lean parsing/printing"]
 
